@@ -225,6 +225,22 @@ def judge_loss(case, obs):
         if present_at_end and not failed and obs["_connected_at_end"] is False:
             out.append(("C17:%s:never-reconnects" % drv, "device back since t=%.3f, 'failed' never reported, but the driver is still "
                         "disconnected at t=%.1f; status log %r" % (restores[-1], obs["t_end"], obs["status_log"][-4:])))
+    # ---- while a connection is up nobody opens the device node a second time (a retry timer left over from the outage,
+    #      a connect() by hand on a connected driver)
+    if obs["connected"]:
+        marks2 = sorted([(t, 1, s_) for (t, s_) in obs["status_log"]] + [(t, 0, "attempt") for (t, ok) in obs["open_attempts"]])
+        up_since = None
+        for (t, _, what) in marks2:
+            if what == "connected":
+                up_since = t
+            elif what in ("disconnected", "failed"):
+                up_since = None
+            elif what == "attempt" and up_since is not None and t > up_since + 1e-9:
+                out.append(("C17:%s:device-opened-again-while-connected" % drv, "the device node was opened at t=%.4f although the "
+                            "connection made at t=%.4f was still up; status log %r; attempts %r"
+                            % (t - 1000.0, up_since - 1000.0, [(round(a - 1000.0, 3), b) for a, b in obs["status_log"]],
+                               [round(a - 1000.0, 4) for a, _ in obs["open_attempts"]])))
+                break
     # ---- an outage does not open a caller's transaction to others: on each connection, no frame of another caller
     #      lies between the first and the last frame of a sequence / transaction caller (callers may be cancelled or
     #      fail while the device is away; the others keep what they hold)
@@ -506,7 +522,9 @@ def loss_case(draw, driver=None):
     if back == "by-hand":
         # the device is back while the driver still waits for its next attempt; the application connects by hand at
         # once; the device goes again before that attempt would have come - and returns much later or never
-        f1, f2, f3 = draw(st.sampled_from([(0.2, 0.25, 0.7), (0.3, 0.35, 0.9), (0.1, 0.5, 0.6), (0.3, 0.31, 1.4)]))
+        # (the by-hand connect() may come just before the sleeping retry timer fires: 0.996 / 0.999 of the interval)
+        f1, f2, f3 = draw(st.sampled_from([(0.2, 0.25, 0.7), (0.3, 0.35, 0.9), (0.1, 0.5, 0.6), (0.3, 0.31, 1.4),
+                                           (0.5, 0.996, 3.3), (0.9, 0.999, 2.6), (0.5, 0.9985, 1.7)]))
         events.append({"t": round(t_loss + f1 * interval, 5), "what": "restore"})
         events.append({"t": round(t_loss + f2 * interval, 5), "what": "app_connect"})
         events.append({"t": round(t_loss + f3 * interval, 5), "what": "lose", "notify": True})
